@@ -562,3 +562,93 @@ Proof.
   rewrite (verify_ok_iff hmac t d m a key now sent_id W Hm Ha Hn Hd).
   unfold spec_accepts, mac_matches, mac_fn_of. rewrite alg_m_s. tauto.
 Qed.
+
+(* ---- finish_with_mac with EDNS: the OPT RR is appended first and is covered by the MAC ------------- *)
+
+Lemma be32_upper u : (u < 256)%N -> be32 (u * 16777216) = be_enc 1 u ++ be_enc 1 0 ++ u16 0.
+Proof.
+  intros H. unfold be32. cbn [be_enc u16 app].
+  assert (E1 : (u * 16777216 / 16777216 = u)%N) by (apply N.div_mul; lia).
+  assert (E2 : (u * 16777216 / 65536 = u * 256)%N)
+    by (replace (u * 16777216)%N with (u * 256 * 65536)%N by lia; apply N.div_mul; lia).
+  assert (E3 : (u * 16777216 / 256 = u * 65536)%N)
+    by (replace (u * 16777216)%N with (u * 65536 * 256)%N by lia; apply N.div_mul; lia).
+  rewrite E1, E2, E3.
+  rewrite (N.mod_small u 256) by exact H.
+  rewrite (N.mod_mul u 256) by lia.
+  replace (u * 65536)%N with (u * 256 * 256)%N by lia. rewrite (N.mod_mul (u * 256) 256) by lia.
+  replace (u * 16777216)%N with (u * 65536 * 256)%N by lia. rewrite (N.mod_mul (u * 65536) 256) by lia.
+  reflexivity.
+Qed.
+
+Lemma opt_rr_spec e : (e_extended_rcode_upper_bits e < 256)%N ->
+  opt_rr e = spec_opt_rr (e_udp_payload_size e) (e_extended_rcode_upper_bits e).
+Proof.
+  intros H. unfold opt_rr, spec_opt_rr. rewrite be32_upper by exact H.
+  change TYPE_OPT with 41%N. repeat rewrite <- app_assoc. reflexivity.
+Qed.
+
+Lemma opt_rr_length e : length (opt_rr e) = N.to_nat OPT_RECORD_SIZE.
+Proof. reflexivity. Qed.
+
+Lemma wf_spec_opt_rr p u : wf_bytes (spec_opt_rr p u).
+Proof.
+  unfold spec_opt_rr, u16.
+  assert (W : forall a b : bytes, wf_bytes a -> wf_bytes b -> wf_bytes (a ++ b))
+    by (intros a b Ha Hb; apply Forall_app; split; assumption).
+  apply W; [constructor; [unfold is_octet; lia|constructor]|].
+  repeat (apply W; [apply be_enc_wf|]). apply be_enc_wf.
+Qed.
+
+Lemma sent_prefix_with_opt sid m p u : sent_prefix sid m ++ spec_opt_rr p u = sent_prefix sid (with_opt m p u).
+Proof. unfold sent_prefix, smsg_wire, with_opt. cbn [m_flags m_qd m_an m_ns m_ar m_body]. repeat rewrite <- app_assoc. reflexivity. Qed.
+
+Lemma wf_with_opt m p u : wf_smsg m -> wf_smsg (with_opt m p u).
+Proof.
+  intros [H Hb]. split; [exact H|]. cbn [with_opt m_body]. apply Forall_app. split; [exact Hb|apply wf_spec_opt_rr].
+Qed.
+
+Section FinishEdns.
+Variable hmac : alg -> bytes -> bytes -> bytes.
+Hypothesis hmac_len : forall a k d, length (hmac a k d) = output_size a.
+
+Lemma finish_tsig_sign p msg d a key :
+  finish_tsig hmac msg (tmode_of d a key) p =
+  (let* (rdata, mac) := sign hmac p msg (smode_of d) a key in Ok (rdata, Some mac)).
+Proof. destruct d; reflexivity. Qed.
+
+(* With set_edns and a signing set_tsig, finish_with_mac produces header ++ sections ++ OPT RR, and the
+   TSIG RDATA/MAC are the RFC 8945 ones for THAT message (the OPT RR is under the MAC). *)
+Theorem finish_edns_tsig_spec p t d m a key sent_id e :
+  prepared_repr p t -> t_alg t = salg_name (alg_s a) -> wf_smsg m ->
+  (N.of_nat (length (t_other t)) < 65536)%N -> (N.of_nat (length (dmode_mac d)) <= 65535)%N ->
+  (N.of_nat (wire_len (t_alg t) + 16 + output_size a + length (t_other t)) <= 65535)%N ->
+  (e_extended_rcode_upper_bits e < 256)%N ->
+  let m' := with_opt m (e_udp_payload_size e) (e_extended_rcode_upper_bits e) in
+  finish_tail hmac (sent_prefix sent_id m) (Some e) (Some (tmode_of d a key, p)) =
+  Ok (sent_prefix sent_id m',
+      Some (fst (spec_sign (mac_fn_of hmac) d m' t (alg_s a) key),
+            Some (snd (spec_sign (mac_fn_of hmac) d m' t (alg_s a) key)))).
+Proof.
+  intros Hp Ha Hm Ho Hd Hlen He. cbv zeta. unfold finish_tail.
+  rewrite opt_rr_spec by exact He. rewrite sent_prefix_with_opt, finish_tsig_sign.
+  rewrite (sign_spec hmac hmac_len p t d _ a key sent_id Hp Ha (wf_with_opt m _ _ Hm) Ho Hd Hlen).
+  cbn [bind]. destruct (spec_sign (mac_fn_of hmac) d (with_opt m (e_udp_payload_size e) (e_extended_rcode_upper_bits e)) t (alg_s a) key).
+  reflexivity.
+Qed.
+
+(* without EDNS: the message is signed as it is *)
+Theorem finish_plain_tsig_spec p t d m a key sent_id :
+  prepared_repr p t -> t_alg t = salg_name (alg_s a) -> wf_smsg m ->
+  (N.of_nat (length (t_other t)) < 65536)%N -> (N.of_nat (length (dmode_mac d)) <= 65535)%N ->
+  (N.of_nat (wire_len (t_alg t) + 16 + output_size a + length (t_other t)) <= 65535)%N ->
+  finish_tail hmac (sent_prefix sent_id m) None (Some (tmode_of d a key, p)) =
+  Ok (sent_prefix sent_id m,
+      Some (fst (spec_sign (mac_fn_of hmac) d m t (alg_s a) key), Some (snd (spec_sign (mac_fn_of hmac) d m t (alg_s a) key)))).
+Proof.
+  intros Hp Ha Hm Ho Hd Hlen. unfold finish_tail. rewrite finish_tsig_sign.
+  rewrite (sign_spec hmac hmac_len p t d m a key sent_id Hp Ha Hm Ho Hd Hlen). cbn [bind].
+  destruct (spec_sign (mac_fn_of hmac) d m t (alg_s a) key). reflexivity.
+Qed.
+
+End FinishEdns.
